@@ -51,7 +51,7 @@ CHECKS = {
         TRUSTED + " TLC 1.8.0 for the model part; the model is bound to the code by replaying all of its states, not only counterexamples.",
     ),
     "C13": (
-        "exhaustive enumeration of builder call histories (plain, no dedup, to a length bound) + BFS with canonical-state dedup to the fixpoint on the real Rule / LayerRule / DiagramRule objects, classified by an independent automaton; exhaustive misspelling and option-combination enumeration",
+        "exhaustive enumeration of builder call histories (plain, no dedup, to a length bound) + BFS with canonical-state dedup to the fixpoint on the real Rule / LayerRule / DiagramRule objects, classified by an independent automaton; TLC model of the Rule builder protocol with every model state replayed against the implementation; exhaustive misspelling, empty-list and option-combination enumeration",
         "Every call history of the real Rule builder over its 14 fluent methods up to the length bound is executed and ended by assert_applies on two architectures; a BFS with canonical-state deduplication closes the reachable builder state space (fixpoint), so the MUST_ERROR => 'never a verdict' check covers histories of any length. The same is done for LayerRule and DiagramRule. Every architecture x rule shape x position x misspelling (also below the level limit), every never-matching regex and every invalid entry-point option combination must raise and never give a verdict.",
         "DESIGN.md §4 C13",
         TRUSTED + " Only MUST_ERROR histories are enforced; everything the property does not name is don't-care.",
